@@ -64,14 +64,14 @@ def build_harness():
 def bridge_coverage():
     """names of translated functions (Generated/Trans*.lean) that no bridge theorem mentions"""
     names = []
-    for f in ("TransBits", "TransFrame", "Trans", "TransPlane"):
+    for f in ("TransBits", "TransFrame", "Trans", "TransPlane", "TransTable"):
         t = open(os.path.join(LEAN, "SqModel", "Generated", f + ".lean"), encoding="utf-8").read()
         m = re.search(r"def T\.translated_%s : List String := \[(.*?)\]" % f, t)
         if not m:
             return ["<list of translated functions missing in %s.lean>" % f]
         names += re.findall(r'"([^"]+)"', m.group(1))
     txt = ""
-    for b in ("BridgeBits", "Bridge", "BridgeRat", "BridgePlane"):
+    for b in ("BridgeBits", "Bridge", "BridgeRat", "BridgePlane", "BridgeTable"):
         txt += open(os.path.join(LEAN, "SqModel", "Proofs", b + ".lean"), encoding="utf-8").read()
     return [n for n in names if not re.search(re.escape(n) + r"(?![A-Za-z0-9_])", txt)]
 
